@@ -398,8 +398,13 @@ class Ctx:
                 if missing:
                     self.proof_problems.append("property theorems missing from %s: %s" % (target, sorted(missing)))
             bad = forbidden_scan()
-            if bad:
-                self.proof_problems.append("forbidden constructs in the development: %s" % bad[:10])
+            cone_files = set(coq_cone(target))
+            mine = [b for b in bad if b.split(":")[0] in cone_files]
+            if mine:
+                self.proof_problems.append("forbidden constructs in the cone of %s: %s" % (target, mine[:10]))
+            others = [b for b in bad if b.split(":")[0] not in cone_files]
+            if others:
+                self.notes.append("forbidden constructs elsewhere in the development (not in this property's cone): %s" % others[:10])
             # extraction is part of the cone of the driver
             for drv in self.drivers:
                 ex = coq_build("extract/Extract_%s.v" % drv)
